@@ -92,6 +92,12 @@ pub fn headermap_str(h: &http::HeaderMap) -> String {
     items.join(";")
 }
 
+pub fn headermap_fields(h: &http::HeaderMap) -> Vec<(Vec<u8>, Vec<u8>)> {
+    let mut v: Vec<(Vec<u8>, Vec<u8>)> = h.iter().map(|(n, v)| (n.as_str().as_bytes().to_vec(), v.as_bytes().to_vec())).collect();
+    v.sort();
+    v
+}
+
 // ---- documented call patterns -------------------------------------------------------------------
 
 /// What the handler of one request observed (server role) / what the client observed for one
@@ -102,6 +108,12 @@ pub struct MsgObs {
     /// "ok" | error class | "" (pending)
     pub head: String,
     pub head_info: String,
+    /// what the application was given, piece by piece: (method, scheme, authority, path and query) of a request
+    pub req_target: Option<(String, Option<String>, Option<String>, Option<Vec<u8>>)>,
+    /// status of a response
+    pub status: Option<u16>,
+    /// regular fields of the head as the application sees them, sorted
+    pub head_fields: Vec<(Vec<u8>, Vec<u8>)>,
     pub body: Vec<u8>,
     /// result of the recv_data call that ended the body loop: "none" | error class | "" (pending / not reached)
     pub body_end: String,
@@ -163,6 +175,13 @@ pub async fn server_handler(
         let mut o = out.borrow_mut();
         o.head = "ok".into();
         o.head_info = format!("{} {} {}", req.method(), req.uri(), headermap_str(req.headers()));
+        o.req_target = Some((
+            req.method().as_str().to_string(),
+            req.uri().scheme_str().map(|s| s.to_string()),
+            req.uri().authority().map(|a| a.as_str().to_string()),
+            req.uri().path_and_query().map(|p| p.as_str().as_bytes().to_vec()),
+        ));
+        o.head_fields = headermap_fields(req.headers());
     }
     loop {
         app_pause().await;
@@ -226,6 +245,8 @@ pub async fn client_reader(mut stream: CliStream, out: Shared<MsgObs>) {
             let mut o = out.borrow_mut();
             o.head = "ok".into();
             o.head_info = format!("{} {}", resp.status().as_u16(), headermap_str(resp.headers()));
+            o.status = Some(resp.status().as_u16());
+            o.head_fields = headermap_fields(resp.headers());
         }
         Err(e) => {
             let mut o = out.borrow_mut();
